@@ -1056,7 +1056,10 @@ def __setstate__(self, state):
     ############################
 
     if self._readonly_:
-        self.as_readonly()
+        # as_readonly() returns at once when the flag is already set, which it
+        # is here, so the decoded arrays have to be frozen directly
+        Qube._array_to_readonly(self._values_)
+        Qube._array_to_readonly(self._mask_)
     else:
         if not mask_is_writable:
             self._mask_ = self._mask_.copy()
@@ -1080,6 +1083,7 @@ def __setstate__(self, state):
             new_deriv._mask_ = self._mask_
 
         if deriv['_readonly_']:
+            new_deriv._readonly_ = False    # the arrays above may be new
             new_deriv.as_readonly()
 
         self.insert_deriv(key, new_deriv)
